@@ -31,6 +31,14 @@ class SeamMissing(Exception):
     pass
 
 
+def _live(entry):
+    """Would a sane kernel still run this queued activation? (not revoked, target not closed)"""
+    target, signal = entry
+    if signal is not None and not signal:
+        return False
+    return getattr(target, "cr_frame", entry) is not None
+
+
 def _sigkind(signal):
     if signal is None:
         return "-"
@@ -226,8 +234,8 @@ class Seam:
             if now != model.time or not model.started:
                 self._advance(model, now)
             queue = model.queues.get(now)
-            while queue and queue[0][1] is not None and not queue[0][1]:
-                queue.pop(0)          # revoked before its turn: dropped by the kernel too
+            while queue and not _live(queue[0]):
+                queue.pop(0)          # revoked or target closed before its turn: dropped
             if not queue:
                 self._kv("C02/unscheduled-activation",
                          "%s activated at %r without having been scheduled for it"
@@ -251,7 +259,7 @@ class Seam:
         """The clock moves from model.time to now: nothing live may be left behind."""
         model.started = True
         for due in [d for d in model.queues if d < now]:
-            left = [e for e in model.queues.pop(due) if e[1] is None or e[1]]
+            left = [e for e in model.queues.pop(due) if _live(e)]
             if left:
                 self._kv("C01/skipped",
                          "clock moved to %r although %d activation(s) were still due at %r"
@@ -268,7 +276,7 @@ class Seam:
         if model is None or model.loop is not loop or model.tainted:
             return
         for due, queue in model.queues.items():
-            left = [e for e in queue if e[1] is None or e[1]]
+            left = [e for e in queue if _live(e)]
             if left:
                 self._kv("C15/run-returned-with-pending-work",
                          "run() returned with %d live activation(s) due at %r (first: %s)"
